@@ -94,6 +94,20 @@ def decodes_to(fmt, blob, data):
         return False
 
 
+def read_file(p):
+    """read without touching the access time (it is one of the things under test)"""
+    fd = os.open(p, os.O_RDONLY | os.O_NOATIME)
+    try:
+        out = b""
+        while True:
+            b = os.read(fd, 1 << 16)
+            if not b:
+                return out
+            out += b
+    finally:
+        os.close(fd)
+
+
 def snapshot(d):
     """name -> identity, metadata (no atime: reading a kept source may legitimately touch it) and content"""
     out = {}
@@ -103,8 +117,7 @@ def snapshot(d):
             st = os.lstat(p)
             rel = os.path.relpath(p, d)
             if stat.S_ISREG(st.st_mode):
-                with open(p, "rb") as f:
-                    body = hashlib.sha1(f.read()).hexdigest()
+                body = hashlib.sha1(read_file(p)).hexdigest()
             elif stat.S_ISLNK(st.st_mode):
                 body = os.readlink(p)
             else:
@@ -149,6 +162,10 @@ class Res:
 
     def add(self, k, v=1):
         self.stats[k] = self.stats.get(k, 0) + v
+
+    def sample(self, tag, text):
+        if all(t != tag for t, _ in self.samples):
+            self.samples.append((tag, text))
 
 
 def status_ok(rc, cls, no_warn):
@@ -195,7 +212,7 @@ def case_name(c, xz, sd, res, verbose=False):
         exp = set(before) - {rel} | {tgt}
         if rc != 0 or set(after) != exp:
             fail("naming-cli:compress:wrong-target", f"expected target '{tgt}' and status 0, got status {rc}, files {sorted(after)}")
-        elif not decodes_to(fmt, open(path_of(d1, tgt), "rb").read(), PLAIN):
+        elif not decodes_to(fmt, read_file(path_of(d1, tgt)), PLAIN):
             fail("naming-cli:compress:bad-content", f"target '{tgt}' does not decode to the source")
         else:
             produced = tgt
@@ -230,7 +247,7 @@ def case_name(c, xz, sd, res, verbose=False):
             exp = set(before) - {produced} | {t2}
             if rc != 0 or set(after) != exp:
                 fail("naming-cli:decompress:wrong-target", f"decompressing '{produced}': expected '{t2}' status 0; status {rc}, files {sorted(after)}")
-            elif open(path_of(d1, t2), "rb").read() != PLAIN:
+            elif read_file(path_of(d1, t2)) != PLAIN:
                 fail("naming-cli:decompress:bad-content", f"'{t2}' differs from the original data")
             elif t2 != rel:
                 if cls == 0:
@@ -241,8 +258,7 @@ def case_name(c, xz, sd, res, verbose=False):
                     fail("naming-cli:inversion", f"'{rel}' -> '{produced}' -> '{t2}'")
                 else:
                     res.add("cli_shadowed_documented")
-                    if len(res.samples) < 2:
-                        res.samples.append(f"CLI documented shadowing: xz {' '.join(opts)} '{rel}' -> '{produced}' -> '{t2}'")
+                    res.sample("A3-shadow", f"CLI, documented shadowing: xz {' '.join(opts)} '{rel}' -> '{produced}' -> (xz -d) '{t2}'")
     # --- decompress mode on the name itself (content is a valid file of the format)
     d2 = fresh("d", encode(fmt, PLAIN))
     before = snapshot(d2)
@@ -263,7 +279,7 @@ def case_name(c, xz, sd, res, verbose=False):
             exp = set(before) - {rel} | {tgt}
             if rc != 0 or set(after) != exp:
                 fail("naming-cli:decompress:wrong-target", f"expected '{tgt}' status 0; status {rc}, files {sorted(after)}")
-            elif open(path_of(d2, tgt), "rb").read() != PLAIN:
+            elif read_file(path_of(d2, tgt)) != PLAIN:
                 fail("naming-cli:decompress:bad-content", f"'{tgt}' differs from the original data")
             res.add("distinct")
     else:
@@ -368,6 +384,7 @@ def case_meta(c, xz, sd, res, verbose=False):
                 fail("cli:skip-touched-files", f"files changed although the file had to be skipped: {changed}")
         if out:
             fail("cli:wrote-from-unsafe-source:stdout", "data was written to standard output for a file that had to be skipped")
+        res.sample("B-skip-" + kind, f"B: {desc} -> status {rc}, nothing changed (skip class {cls})")
         if not status_ok(rc, cls, no_warn):
             fail("cli:exit-status:skip-" + cls + (":no-warn" if no_warn else ""), f"exit status {rc} for a skip of class {cls}")
         return
@@ -386,7 +403,7 @@ def case_meta(c, xz, sd, res, verbose=False):
     if target not in after:
         fail("cli:no-target", f"no target file; files: {sorted(after)}"); return
     st = os.lstat(os.path.join(sd, target))
-    body = open(os.path.join(sd, target), "rb").read() if stat.S_ISREG(st.st_mode) else b""
+    body = read_file(os.path.join(sd, target)) if stat.S_ISREG(st.st_mode) else b""
     if not stat.S_ISREG(st.st_mode) or not (body == PLAIN if dec else decodes_to("xz", body, PLAIN)):
         fail("cli:target-content", "target is not a regular file with the expected data")
     tm = st.st_mode & 0o7777
@@ -404,6 +421,8 @@ def case_meta(c, xz, sd, res, verbose=False):
         fail("cli:mtime-not-copied", f"target mtime {st.st_mtime_ns} ns, source {MT_NS} ns")
     if st.st_atime_ns != AT_NS:
         fail("cli:atime-not-copied", f"target atime {st.st_atime_ns} ns, source {AT_NS} ns")
+    res.sample("B-proc-" + kind, f"B: {desc} (owner {UID}:{GID}, atime/mtime {AT_NS}/{MT_NS} ns) -> status {rc}, {target} mode {tm:04o} "
+               f"{st.st_uid}:{st.st_gid} times {st.st_atime_ns}/{st.st_mtime_ns}, source {'kept' if name in after else 'removed'}")
     expect = dict(before)
     expect.pop(target, None)
     if not keep:
@@ -441,6 +460,8 @@ def case_seq(c, xz, sd, res, verbose=False):
             open(os.path.join(sd, n + ".real"), "wb").write(PLAIN); os.symlink(n + ".real", os.path.join(sd, n))
         elif k == "err-exists":
             open(os.path.join(sd, n), "wb").write(PLAIN); open(os.path.join(sd, n + ".xz"), "wb").write(b"OLD-TARGET")
+        if k == "warn-symlink" and "-k" in flags:
+            k = "ok"          # --keep also lifts the symlink refusal (xz.1, -k)
         names.append(n); cls.append(k.split("-")[0])
     before = snapshot(sd)
     rc, out, err = run_xz(xz, flags + ["--"] + names, sd)
@@ -451,16 +472,18 @@ def case_seq(c, xz, sd, res, verbose=False):
     desc = f"xz {' '.join(flags)} -- " + " ".join(f"{n}({k})" for n, k in zip(names, seq))
     if verbose:
         print(f"{desc}\n  rc={rc} expected {want}\n  stderr={err.decode(errors='replace')!r}\n  files after: {sorted(after)}")
+    res.sample("B3-" + ("err+warn" if "err" in cls and "warn" in cls else "other"), f"B3: {desc} -> status {rc}")
     if rc != want:
         key = "cli:exit-status:multi:" + ("error-and-warning" if "err" in cls and "warn" in cls else "error" if "err" in cls else "warning" if "warn" in cls else "ok")
         res.fails.append((key, f"{desc}: exit status {rc}, expected {want}", rj))
     expect = dict(before)
-    for n, k in zip(names, seq):
-        if k == "ok" and "-k" not in flags:
+    oks = [n for n, k in zip(names, cls) if k == "ok"]
+    for n in oks:
+        if "-k" not in flags:
             expect.pop(n)
     got = {k: v for k, v in after.items() if not (k.endswith(".xz") and k not in before)}
     new = sorted(k for k in after if k not in before)
-    if got != expect or new != sorted(n + ".xz" for n, k in zip(names, seq) if k == "ok"):
+    if got != expect or new != sorted(n + ".xz" for n in oks):
         res.fails.append(("cli:multi:files", f"{desc}: every 'ok' file must be compressed and every other file left alone; new files {new}, "
                           f"changed {sorted(k for k in set(got) | set(expect) if got.get(k) != expect.get(k))}", rj))
 
@@ -517,6 +540,7 @@ def case_unpriv(c, xz, sd, res, verbose=False):
     t_u, t_g, t_o = tm >> 6 & 7, tm >> 3 & 7, tm & 7
     if st.st_gid == GID:
         fail("infra:setup", "group was copied although the process is not a member"); return
+    res.sample("B4", f"B4: {desc} -> status {rc}, target {st.st_uid}:{st.st_gid} mode {tm:04o}")
     if tm & 0o7000:
         fail("cli:mode:special-bits-copied", f"target mode {tm:04o}")
     if t_u != s_u:
@@ -681,16 +705,20 @@ def run(tier):
     if os.geteuid() != 0:
         ck.infra_errors.append("C19 needs root (chown of the sources to a foreign uid:gid)")
         return ck.finish(rule="not run")
-    n = vlib.NCPU
     root = tempfile.mkdtemp(prefix="c19-", dir=vlib.BUILD)
-    os.chmod(root, 0o755)
     try:
-        # private copies: the shared build cache keeps few entries and may be pruned by a concurrent build
-        exe = shutil.copy2(build_harness(), os.path.join(root, "c19_suffix"))
-        xz = shutil.copy2(os.path.join(vlib.build_cli(), "xz"), os.path.join(root, "xz"))
-    except Exception:
+        os.chmod(root, 0o755)
+        explore(ck, tier, root)
+    finally:
         shutil.rmtree(root, ignore_errors=True)
-        raise
+    return conclude(ck)
+
+
+def explore(ck, tier, root):
+    n = vlib.NCPU
+    # private copies: the shared build cache keeps few entries and may be pruned by a concurrent build
+    exe = shutil.copy2(build_harness(), os.path.join(root, "c19_suffix"))
+    xz = shutil.copy2(os.path.join(vlib.build_cli(), "xz"), os.path.join(root, "xz"))
     # ---- A1
     maxlen, cplen = (5, 3) if tier == "quick" else (6, 4)
     t0 = time.time()
@@ -701,39 +729,37 @@ def run(tier):
     # ---- A2
     cross_validate_models(ck, exe)
     # ---- A3 + B
-    try:
-        plan = [("A3 names via CLI", grid_names(tier)), ("B1/B2 metadata+overwrite grid", grid_meta(tier)),
-                ("B3 multi-file exit status", grid_seq(tier)), ("B4 unprivileged owner", grid_unpriv(tier))]
-        deadline = ck.deadline - 10
-        ctx = multiprocessing.get_context("fork")
-        with concurrent.futures.ProcessPoolExecutor(n, mp_context=ctx) as ex:
-            for label, cases in plan:
-                t0 = time.time()
-                size = max(8, min(200, len(cases) // (n * 8) + 1))
-                # interleave so that every chunk holds a mix of cheap and expensive cases
-                chunks = [cases[i::(len(cases) + size - 1) // size] for i in range((len(cases) + size - 1) // size)]
-                sub = ck.sub.setdefault(label, {})
-                sub["cases"] = len(cases)
-                for r in ex.map(run_chunk, [(xz, root, f"{label[:2]}{i}", ch, deadline) for i, ch in enumerate(chunks)]):
-                    for k, v in r.stats.items():
-                        ck.add(k, v); sub[k] = sub.get(k, 0) + v
-                    for key, text, rp in r.fails:
-                        if key.startswith("infra:"):
-                            ck.infra_errors.append(text)
-                        else:
-                            ck.fail(key, label + ": " + text, rp)
-                    for s in r.samples:
-                        if sum(1 for x in ck.samples if x.startswith("CLI")) < 3:
-                            ck.samples.append(s)
-                    ck.obs |= r.obs
-                sub["wall_s"] = round(time.time() - t0, 1)
-                if ck.stats.get("skipped_deadline"):
-                    ck.exhaustive = False
-    finally:
-        shutil.rmtree(root, ignore_errors=True)
-    ck.samples += ["B: regular 0644 uid 12345 gid 23456 atime/mtime …123456789/…987654321 ns, `xz -- f` -> f.xz mode 0644, same owner/group/times, f removed, status 0",
-                   "B: symlink, `xz -- f` -> status 2, nothing changed; `xz -f -- f` -> f.xz written from the link's file, link removed",
-                   "B3: `xz -- f0(missing) f1.xz(already suffixed)` -> status 1; `xz --no-warn -- f0.xz` -> status 0"]
+    plan = [("A3 names via CLI", grid_names(tier)), ("B1/B2 metadata+overwrite grid", grid_meta(tier)),
+            ("B3 multi-file exit status", grid_seq(tier)), ("B4 unprivileged owner", grid_unpriv(tier))]
+    deadline = ck.deadline - 10
+    seen_tags = set()
+    ctx = multiprocessing.get_context("fork")
+    with concurrent.futures.ProcessPoolExecutor(n, mp_context=ctx) as ex:
+        for label, cases in plan:
+            t0 = time.time()
+            size = max(8, min(200, len(cases) // (n * 8) + 1))
+            # interleave so that every chunk holds a mix of cheap and expensive cases
+            chunks = [cases[i::(len(cases) + size - 1) // size] for i in range((len(cases) + size - 1) // size)]
+            sub = ck.sub.setdefault(label, {})
+            sub["cases"] = len(cases)
+            for r in ex.map(run_chunk, [(xz, root, f"{label[:2]}{i}", ch, deadline) for i, ch in enumerate(chunks)]):
+                for k, v in r.stats.items():
+                    ck.add(k, v); sub[k] = sub.get(k, 0) + v
+                for key, text, rp in r.fails:
+                    if key.startswith("infra:"):
+                        ck.infra_errors.append(text)
+                    else:
+                        ck.fail(key, label + ": " + text, rp)
+                for tag, text in r.samples:
+                    if tag not in seen_tags:
+                        seen_tags.add(tag); ck.samples.append(text)
+                ck.obs |= r.obs
+            sub["wall_s"] = round(time.time() - t0, 1)
+            if ck.stats.get("skipped_deadline"):
+                ck.exhaustive = False
+
+
+def conclude(ck):
     ck.assumptions += [
         "names: alphabet {a . - x z t l m} up to the stated length, plus 'd/' and 'd.xz/' directory parts and the composed prefix x suffix family; other bytes (non-UTF-8, spaces) are not enumerated - the mapping code is byte-transparent apart from '/' and the suffix strings",
         "custom suffixes {none .s s z xz .xz lzma .tlz}; formats xz, lzma, raw (compress) and auto, xz, lzma, lzip, raw (decompress)",
